@@ -10,6 +10,8 @@ B = SimplicialComplex
 class Live:
     """records op lines while executing them on the implementation (so that generated calls are mostly valid)"""
     def __init__(self, pool='int', tag='', **kw):
+        import gen as _g
+        _g.CURRENT[0] = self
         self.ex = Executor(pool)
         self.pool = pool
         self.lines = []
@@ -152,6 +154,9 @@ def c02(tier, seed):
         # bulk add into another complex under a renaming
         if not thin or rng.random() < 0.3:
             ren = {t: 'u%d' % (300 + j) for j, t in enumerate(sorted(names)) if rng.random() < 0.5}
+            for j, t in enumerate(rng.sample(sorted(names), min(3, len(names)))):
+                if rng.random() < 0.5:
+                    ren[t] = 'u%d' % (10 + j)          # '', 0, () in the pool of falsy names
             rs = '{' + ','.join('%s:%s' % kv for kv in ren.items()) + '}'
             other = ['new c1', 'add c1 u200 [] -', 'add c1 u201 [] -', 'addb c1 u202 [u200,u201] -']
             yield dict(lines=base + other + ['!snap c1', 'addfrom c1 c0 ' + rs, '!post-addfrom c1 c0 ' + rs, 'obs c1', 'obs c0'],
@@ -192,6 +197,9 @@ def c03(tier, seed):
                 ch = rng.sample(ks, rng.randrange(1, len(ks) + 1))
                 g.do('q c0 boundary ' + Lst(ch))
                 g.lines.append('!chain c0 ' + Lst(ch)); g.out.append('ok')
+        g.do('obs c0')
+        g.lines.append('!noalias c0'); g.out.append('ok')
+        g.lines.append('!views c0'); g.out.append('ok')
         g.do('obs c0')
         yield dict(lines=g.lines, pool=pool, tag='C03 history seed=%d' % (seed * 7919 + j))
     for fam in ([frozenset()] + all_complexes(2)):
@@ -343,17 +351,24 @@ def c05(tier, seed):
             for k in range(B.maxOrder(c) + 2):
                 L.do('q c0 bop %d' % k)
             L.do('!snap c0 c9')
+            L.do('deepcopy c0 cz')
             L.do(line)
             L.do('!rejected')
             L.do('!same c0 c9')
             L.do('obs c0')
             for k in range(B.maxOrder(c) + 2):
                 L.do('q c0 bop %d' % k)
-            # valid calls afterwards behave as if the rejected call had never been made
-            L.do('add c0 - [] -')
+            # valid calls afterwards behave as if the rejected call had never been made: the same calls on a deep
+            # copy taken before the rejected request give the same complex (including generated names)
+            L.do('!sameobs c0 cz')
+            for hh in ('c0', 'cz'):
+                L.do('add %s - [] -' % hh)
             pts = L.toks('c0', 0)
             if len(pts) >= 2:
-                L.do('addb c0 - %s -' % Lst(rng.sample(pts, min(3, len(pts)))))
+                q = Lst(rng.sample(pts, min(3, len(pts))))
+                for hh in ('c0', 'cz'):
+                    L.do('addb %s - %s -' % (hh, q))
+            L.do('!sameobs c0 cz')
             L.do('obs c0')
             yield L.case()
     # several rejections in a row inside random histories
@@ -460,6 +475,42 @@ def c06(tier, seed, z=False, pid='C06'):
         yield L.case()
 
 
+    # queries interleaved with changes: the answers always describe the complex as it is now
+    for j in range(300 if tier == 'quick' else 3000):
+        pool = POOL_NAMES[j % len(POOL_NAMES)]
+        g = HistGen(seed * 5003 + j, pool, invalid=0.1)
+        g.tag = ''
+        g.do('new c0')
+        L = _asLive(g, '%s queries between changes seed=%d' % (pid, seed * 5003 + j), 'z' if z else None)
+        for bs in (['u1', 'u2', 'u3'], ['u2', 'u3', 'u4'], ['u4', 'u5']):
+            if rng.random() < 0.7:
+                g.do('addb c0 - %s -' % Lst(bs))
+        for _ in range(rng.randrange(3, 9)):
+            homology_queries(L, 'c0', z)
+            names = g.tok_names('c0')
+            r = rng.random()
+            if names and r < 0.35:
+                g.do('del c0 ' + rng.choice(names))
+            elif r < 0.5:
+                g.do('add c0 - [] -')
+            else:
+                g.step_mutator('c0')
+        homology_queries(L, 'c0', z)
+        yield dict(lines=g.lines, pool=pool, tag=L.tag, judge=('z' if z else None))
+
+
+class _asLive:
+    """lets the query helpers written for `Live` drive a HistGen"""
+    def __init__(self, g, tag, judge):
+        self.g = g; self.ex = g.ex; self.pool = g.ex.pool; self.tag = tag
+
+    def do(self, line):
+        if line.startswith('!'):
+            self.g.lines.append(line); self.g.out.append('ok')
+            return None
+        return self.g.do(line)
+
+
 def c07(tier, seed):
     return c06(tier, seed, z=True, pid='C07')
 
@@ -553,7 +604,8 @@ def mutate_lines(L, h, rng, n=3):
             L.do('add %s - [] -' % h)
         elif k == 'addb':
             pts = L.toks(h, 0)
-            L.do('addb %s - %s -' % (h, Lst(rng.sample(pts, min(len(pts), 2)) + ['u%d' % rng.randrange(600, 700)])))
+            fresh = [t for t in ('u%d' % rng.randrange(600, 700) for _ in range(5)) if t not in pts][:1]
+            L.do('addb %s - %s -' % (h, Lst(rng.sample(pts, min(len(pts), 2)) + fresh)))
         elif k == 'relabel' and names:
             L.do('relabel %s {%s:u%d}' % (h, rng.choice(names), rng.randrange(700, 800)))
 
@@ -939,6 +991,7 @@ def c15(tier, seed):
         rens.append({t: (t if rng.random() < 0.3 else 'u%d' % (400 + j)) for j, t in enumerate(names)})
         rens.append({t: 'a%d.%d' % (j % 3, j) for j, t in enumerate(names) if rng.random() < 0.6})
         rens.append({'u399': 'u398'})
+        rens.append({t: 'u%d' % (10 + j) for j, t in enumerate(rng.sample(names, min(3, len(names))))})
         for ren in rens:
             rs = '{' + ','.join('%s:%s' % kv for kv in ren.items()) + '}'
             L = Live(pool, 'C15 relabel %s' % rs)
@@ -963,6 +1016,9 @@ def c15(tier, seed):
         L.do('compose c0 c1 c2'); L.do('obs c2')
         yield L.case()
         ren = {t: 'u%d' % (450 + j) for j, t in enumerate(names)}
+        for j, t in enumerate(rng.sample(names, min(3, len(names)))):
+            if rng.random() < 0.5:
+                ren[t] = 'u%d' % (10 + j)
         for t in list(ren):
             if rng.random() < 0.3 and t not in {tokS(x) for x in other}:
                 del ren[t]                      # identity on some names that do not collide with the target
@@ -1195,4 +1251,21 @@ SUITES = dict(C01=c01, C02=c02, C03=c03, C04=c04, C05=c05, C06=c06, C07=c07, C08
 
 
 def cases(pid, tier, seed):
-    return SUITES[pid](tier, seed)
+    """the cases of a property; when building a case needs to inspect the live implementation and that raises
+    (possible only when the implementation is corrupted by an earlier call), the script built so far is emitted
+    with a final well-formedness oracle, and generation stops"""
+    import gen as _g, traceback
+    it = SUITES[pid](tier, seed)
+    while True:
+        try:
+            c = next(it)
+        except StopIteration:
+            return
+        except Exception as e:
+            cur = _g.CURRENT[0]
+            lines = list(cur.lines) if cur is not None else []
+            pool = getattr(cur, 'pool', None) or getattr(getattr(cur, 'ex', None), 'pool', 'int')
+            yield dict(lines=lines + ['!inv-all'], pool=pool, genfail=traceback.format_exc()[-1500:],
+                       tag='%s: building the next call raised %s: %r (inspecting the implementation after this script)' % (pid, type(e).__name__, e))
+            return
+        yield c
